@@ -95,6 +95,7 @@ class CasJsonDeserializer:
         self._max_xmi_id = 0
         self._max_sofa_num = 0
         self._post_processors = []
+        self._initial_view_in_document = False
 
     def deserialize(
         self,
@@ -111,6 +112,7 @@ class CasJsonDeserializer:
         self._max_xmi_id = 0
         self._max_sofa_num = 0
         self._post_processors = []
+        self._initial_view_in_document = False
 
         if merge_typesystem:
             json_typesystem = data.get(TYPES_FIELD) or {}
@@ -189,6 +191,15 @@ class CasJsonDeserializer:
         for post_processor in self._post_processors:
             post_processor()
 
+        if not self._initial_view_in_document:
+            # The document does not mention the initial view, which every CAS has: its sofa must not reuse an
+            # xmi:id or a sofaNum of the document
+            self._max_xmi_id += 1
+            self._max_sofa_num += 1
+            initial_sofa = cas.get_view(NAME_DEFAULT_SOFA).get_sofa()
+            initial_sofa.xmiID = self._max_xmi_id
+            initial_sofa.sofaNum = self._max_sofa_num
+
         cas._xmi_id_generator = IdGenerator(self._max_xmi_id + 1)
         cas._sofa_num_generator = IdGenerator(self._max_sofa_num + 1)
 
@@ -255,6 +266,8 @@ class CasJsonDeserializer:
         view = self._get_or_create_view(
             cas, json_fs.get(FEATURE_BASE_NAME_SOFAID), fs_id, json_fs.get(FEATURE_BASE_NAME_SOFANUM)
         )
+        if json_fs.get(FEATURE_BASE_NAME_SOFAID) == NAME_DEFAULT_SOFA:
+            self._initial_view_in_document = True
 
         view.sofa_string = json_fs.get(FEATURE_BASE_NAME_SOFASTRING)
         view.sofa_mime = json_fs.get(FEATURE_BASE_NAME_SOFAMIME)
